@@ -215,6 +215,11 @@ def run_check(prop, tier="quick", root=None):
         rc = 2
     for m in a["broken"]:
         print("ANALYSIS-BROKEN property=%s %s" % (prop, m))
+    catalogue = None
+    if tier == "thorough":
+        catalogue = run_catalogue(prop)
+        for c in catalogue:
+            print("catalogue %-10s %-40s expected=%-8s got=%-8s %s" % (c["kind"], c["name"][:40], c["expected"], c["got"], "" if c["ok"] else "MISMATCH"))
     # evidence
     samples = []
     for o in sorted(obs, key=lambda o: (o.verdict != VIOLATED, o.rule, o.key))[:400]:
@@ -248,6 +253,7 @@ def run_check(prop, tier="quick", root=None):
         "samples": samples,
         "exhaustive": True,
         "analysis_broken": a["broken"],
+        "catalogue": catalogue,
         "checker_cmd": "bin/check %s" % prop,
         "trusted_base": ["clang 14 front end, CFG construction and USR generation", "libstdc++ container/shared_ptr semantics",
                          "rule tables under /verif/rules and /verif/dsplint"],
@@ -259,6 +265,46 @@ def run_check(prop, tier="quick", root=None):
     core.write_evidence(prop, tier, "other", coverage, assumptions, time.time() - t0, len(new_viol))
     print("%s: %s  (%.1fs)" % (prop, {0: "holds on everything analysed", 1: "VIOLATED", 2: "analysis broken"}[rc], time.time() - t0))
     return rc
+
+
+def run_catalogue(prop):
+    """thorough tier, evidence only: (a) every repaired defect of this property, re-introduced on a scratch copy by reverting
+    its fix commit, must be reported again; (b) every confirmed seeded change of this property that the checks are known to
+    catch must still be caught; (c) every behaviour-preserving variant that touches this property's rules must stay silent"""
+    import glob
+    from . import mutants
+    out = []
+    for (p, commit, what) in mutants.fixed_commits():
+        if p != prop:
+            continue
+        patch = mutants.revert_patch(commit)
+        if patch is None:
+            out.append({"kind": "regression", "name": "revert " + commit, "expected": "reported", "got": "skipped", "ok": True, "what": what[:160]})
+            continue
+        r = mutants.try_patch(patch, [prop], reverse=True)
+        got = "skipped" if not r["applied"] else ("reported" if r["results"][prop]["rc"] == 1 else "silent")
+        out.append({"kind": "regression", "name": "revert " + commit, "expected": "reported", "got": got, "ok": got in ("reported", "skipped"),
+                    "what": what[:160], "obligations": [v[1] for v in r.get("results", {}).get(prop, {}).get("violations", [])][:6]})
+    for mp in sorted(glob.glob(os.path.join(core.VERIF, "seeded", "*", "meta.json"))):
+        meta = json.load(open(mp))
+        if meta.get("breaks_property") != prop:
+            continue
+        exp = "reported" if meta.get("detection", {}).get("detected_under_own_property") else "missed"
+        patch = open(os.path.join(os.path.dirname(mp), "patch.diff"), "rb").read()
+        r = mutants.try_patch(patch, [prop])
+        got = "skipped" if not r["applied"] else ("reported" if r["results"][prop]["rc"] == 1 else "missed")
+        out.append({"kind": "seeded", "name": meta["id"], "expected": exp, "got": got, "ok": got == exp or got == "skipped" or (exp == "missed" and got == "reported"),
+                    "obligations": [v[1] for v in r.get("results", {}).get(prop, {}).get("violations", [])][:6]})
+    for bp in sorted(glob.glob(os.path.join(core.VERIF, "mutants", "benign", "*.diff"))):
+        txt = open(bp, "rb").read()
+        m = re.search(r"# props: (.*)", txt.decode(errors="replace"))
+        if not m or prop not in m.group(1).split():
+            continue
+        body = txt[txt.index(b"--- a/"):]
+        r = mutants.try_patch(body, [prop])
+        got = "skipped" if not r["applied"] else ("silent" if r["results"][prop]["rc"] == 0 else "alarm")
+        out.append({"kind": "benign", "name": os.path.basename(bp)[:-5], "expected": "silent", "got": got, "ok": got in ("silent", "skipped")})
+    return out
 
 
 def main(argv):
